@@ -628,3 +628,5 @@ add("s-format-arguments-in-a-local-tuple", S, ["C07"], "dfols/controller.py",
 add_multi("s-counters-initialised-by-a-helper-of-the-constructor", S, ["C07", "C10"], [
     ("dfols/controller.py", "        self.last_successful_run = 0\n", "        self._reset_run_counters()\n"),
     ("dfols/controller.py", "    def initialise_coordinate_directions(", "    def _reset_run_counters(self):\n        self.last_successful_run = 0\n\n    def initialise_coordinate_directions(")])
+add("s-base-shift-before-the-rebasing", S, ["C16", "C01"], "dfols/solver.py", "                xnew = xnew - base_shift  # before xopt is updated\n                control.model.shift_base(base_shift)\n",
+    "                control.model.shift_base(base_shift)\n                xnew = xnew - base_shift  # (base_shift was read before the shift)\n")
